@@ -19,6 +19,7 @@ def run(tier, seed):
             cases.append({"name": "t%d" % len(cases), "kind": "intrude", "proto": p})
             cases.append({"name": "t%d" % len(cases), "kind": "impostor", "impostor": "othercert", "proto": p})
             cases.append({"name": "t%d" % len(cases), "kind": "impostor", "impostor": "nocert", "proto": p})
+            cases.append({"name": "t%d" % len(cases), "kind": "impostor", "impostor": "chain", "proto": p})
     obs, crashes = vlib.run_cases(b["drivers"], "TestMTLSCases", cases, "c12", env={"VERIF_VPLUGIN": b["vplugin"], "VERIF_CASE_TIMEOUT_S": "120"},
                                   shards=min(6, len(cases)), serial=True, timeout=1800)
     by = {c["name"]: c for c in cases}
@@ -34,7 +35,8 @@ def run(tier, seed):
     for name in dev:
         o, c = obs[name], by[name]
         if c["kind"] == "impostor":
-            how = "announced no certificate and served in plaintext" if c.get("impostor") == "nocert" else "announced one certificate and served with another"
+            how = {"nocert": "announced no certificate and served in plaintext", "chain": "announced a certificate it has no key for and served with another, appending the announced one to its chain"}.get(
+                c.get("impostor"), "announced one certificate and served with another")
             rep.violation("c12:impostor:%s:%s" % (c.get("impostor", "othercert"), c["proto"]), "%s: a plugin that %s was used successfully (or Start failed to complete): %s" % (c["proto"], how, json.dumps(o["out"])),
                           {"case": c, "observation": o})
             continue
